@@ -75,8 +75,9 @@ def generate(rep, quick, seed):
     behs = []
     for mod, qedge, tedge, sim, nq, note in PARTS:
         e = sc.maximal(out[mod].get("edge", []))
-        behs += sc.sample(e, nq if quick else 20000, seed)
-        rep.cov.setdefault("edge_behaviours", {})[mod] = dict(maximal=len(e), replayed=min(len(e), nq if quick else 20000))
+        cap = nq if quick else (20000 if mod == "OrchAbs" else 15000)   # thorough: seeded sample of the larger covers
+        behs += sc.sample(e, cap, seed)
+        rep.cov.setdefault("edge_behaviours", {})[mod] = dict(maximal=len(e), replayed=min(len(e), cap))
         behs += out[mod].get("sim", [])
     return behs
 
